@@ -118,6 +118,12 @@ func Plan(out string, seed uint64, tier string, scenario string, count int, epoc
 			pr.WideForks = i%2 == 1
 		}
 		if !quick && scenario == "" {
+			pr.CommitteeDrop = n == "basic"
+			pr.DepositFork = i%6 == 1
+			if i%12 == 10 {
+				pr.ForkBias = "phase0long"
+				pr.Phase0Leak = true
+			}
 			switch i % 12 {
 			case 3:
 				pr.ForkBias = "pair"
@@ -137,9 +143,18 @@ func Plan(out string, seed uint64, tier string, scenario string, count int, epoc
 			case 0:
 				pr.ForkBias = "late"
 				pr.ZeroHashMerge = 1
+				pr.CommitteeDrop = true
 			case 1:
 				pr.ForkBias = "early"
 				pr.ZeroHashMerge = 1
+				pr.DepositFork = true
+			case 4:
+				// four phase0 epochs with a leak, altair on a sync-period boundary
+				pr.ForkBias = "phase0long"
+				pr.Phase0Leak = true
+				if pr.Epochs < 9 {
+					pr.Epochs = 9
+				}
 			case 2:
 				pr.ForkBias = "pair"
 			case 3:
@@ -260,7 +275,46 @@ func CLI(args []string) int {
 		}
 	}
 	fmt.Printf("total %.1fs, summary in %s\n", time.Since(t0).Seconds(), filepath.Join(out, "summary.json"))
+	if rm, _ := sum["required_missing"].([]string); tier != "thorough" && scenario == "" && len(rm) > 0 {
+		// Guard: a quick run must contain every required history. When zrnt itself misbehaved (honest blocks rejected, live
+		// context diverged, generator errors) the records already show that and the guard stays quiet.
+		clean := true
+		for _, r := range results {
+			if r.Err != nil || len(r.Problems) > 0 || statGet(r.Stats, "honest_rejected") > 0 || statGet(r.Stats, "live_ctx_diverged") > 0 {
+				clean = false
+			}
+		}
+		fmt.Fprintf(os.Stderr, "REQUIRED HISTORY MISSING in this quick run (seed %d): %v\n", seed, rm)
+		if clean {
+			return 5
+		}
+	}
 	return code
+}
+
+// RequiredQuick: counters (summary.json: per_fork.<fork>.<k> for "<fork>.<k>", else counts.<k>) that must be non-zero in
+// every quick run.
+var RequiredQuick = []string{
+	// round 7
+	"phase0.att_prev_epoch_index_above_current_count",
+	"deposit_fork_conflicting_registration",
+	"phase0.att_overlap_fewer_flags_last_phase0_epoch",
+	"phase0_leak_epochs_with_wrong_target_votes",
+	"corrupt_per_fork.att_bits_shorter@phase0", "corrupt_per_fork.att_bits_shorter@altair", "corrupt_per_fork.att_bits_shorter@bellatrix",
+	"corrupt_per_fork.att_bits_shorter@capella", "corrupt_per_fork.att_bits_shorter@deneb",
+	"corrupt.deposit_none", "corrupt.deposit_missing", "corrupt.deposit_unexpected",
+	"corrupt.wrong_pre_state_pre_advanced", "slots_records_target_equals_current",
+	"altair_fork_on_sync_period_boundary",
+	"cancel_deadline.altair", "cancel_deadline.bellatrix", "cancel_deadline.capella", "cancel_deadline.deneb",
+	// earlier rounds
+	"cancel_cover.phase0.dep_noexit", "cancel_sweeps_trans_validate0",
+	"engine_fault.bellatrix.errortrue", "engine_fault.capella.errortrue", "engine_fault.deneb.errortrue",
+	"sync_period_boundaries_with_active_set_change", "branch_points", "branch_effbal_changed_on_other_side",
+	"epochs_proposers_sensitive_to_effbal_change", "blocks_exit_queue_advanced_twice", "epochs_ejections_exceed_churn",
+	"slashed_reaching_withdrawable_epoch", "validators_added_with_fractional_amount_above_max",
+	"bellatrix.payload_merge_block_zero_hash", "engine_sweeps_zero_hash_merge_block",
+	"corrupt.sync_sig_new_fork_version", "corrupt.pslash_pre_fork_headers_new_version", "corrupt.aslash_surround_reverse_order",
+	"corrupt.exit_same_twice", "corrupt.aslash_duplicate_index_valid_signature",
 }
 
 func statGet(s *Stats, k string) int {
@@ -345,8 +399,24 @@ func Summarize(results []ChainResult, seed uint64, tier string, secs float64) ma
 			}
 		}
 	}
+	// histories / inputs every quick run must contain (the seeded-defect trials depend on them)
+	var reqMissing []string
+	get := func(k string) int {
+		for _, f := range ForkNames {
+			if len(k) > len(f)+1 && k[:len(f)+1] == f+"." {
+				return perFork[f][k[len(f)+1:]]
+			}
+		}
+		return other[k]
+	}
+	for _, k := range RequiredQuick {
+		if get(k) == 0 {
+			reqMissing = append(reqMissing, k)
+		}
+	}
 	sort.Strings(problems)
 	return map[string]interface{}{
+		"required_missing": reqMissing, "required": RequiredQuick,
 		"missing_fork_ops": missing,
 		"seed":             seed, "tier": tier, "seconds": secs, "bytes": bytes, "chains": chains,
 		"per_fork": perFork, "counts": other, "problems": problems, "unmet_expectations": unmet,
